@@ -1337,7 +1337,8 @@ def run_big(case, drv, N, model, key, tags):
 
 def run_gibbs_seed(case):
     """a fixed seed reproduces GibbsSampling.sample also when the start state is drawn at random (start_state=None):
-    two fresh samplers, same seed, different state of the global RNG before the call"""
+    fresh samplers, same seed, different state of the global RNG before the call (repaired by 606fa27: the seed is set
+    before the random start state is drawn; a recurrence is an unlisted violation)"""
     import numpy as np
     from pgmpy.models import BayesianNetwork
     from pgmpy.factors.discrete import TabularCPD
@@ -1360,7 +1361,7 @@ def run_gibbs_seed(case):
                                           "frames depending on the global RNG state before the call (the random start "
                                           "state is drawn before the seed is set)",
                                   "first_rows": [f.iloc[0].tolist() for f in frames], "case": case},
-                   finding="gibbs-sample-seed-set-after-random-start", key=key, tags=tags)
+                   finding=None, key=key, tags=tags)
     return ok(nontrivial=True, key=key, tags=tags)
 
 
